@@ -131,6 +131,43 @@ def runLoop (c : Clock) : List (List Act × (Nat → List (Option Nat))) → Clo
       (r.1, (c.now, eventTime c, active c) :: r.2)
     else (c, [])
 
+/-! ### Interactive stepping with an explicit step size, and the clock without modifiers -/
+
+/-- `InteractiveContext.step(step_size)`: `_clock._clock_step_size = step_size` before the engine step … -/
+def overrideStep (c : Clock) (s : Int) : Clock := { c with step := s }
+
+/-- … and `_clock._clock_step_size = old_step_size` after it – since F33 only when the override is still in
+place, i.e. when `step_forward` did not recompute the global step (no individual clocks, or an empty
+population). -/
+def restoreStep (c : Clock) (old : Int) : Clock := { c with step := old }
+
+/-- one `InteractiveContext.step(step_size)` with per-simulant clocks; without a step size it is the
+engine's step. After an explicit step the global step recomputed by `step_forward` (earliest pending
+next-event time minus clock) is kept; the old step comes back only for an empty population
+(`self.get_population(untracked=True).empty`). -/
+def interactiveIterate (c : Clock) (explicit : Option Int) (acts : List Act)
+    (mods : Nat → List (Option Nat)) : Clock :=
+  match explicit with
+  | none => iterate c acts mods
+  | some s =>
+    let c' := iterate (overrideStep c s) acts mods
+    if c'.sims.isEmpty then restoreStep c' c.step else c'
+
+/-- `SimpleClock.setup`: like `configure`, but the global step starts at the standard step. -/
+def configureSimple (start stop minStep std : Int) : Clock :=
+  { now := start, step := if std = 0 then minStep else std, stop := stop, minStep := minStep,
+    stdStep := if std = 0 then minStep else std }
+
+/-- Without any step-size modifier `on_post_setup` drops the population view: there are no clock
+columns, `simulant_next_event_times` answers `event_time` and `simulant_step_sizes` answers `step_size`
+for everybody. The rows of the model are kept in that state. -/
+def refreshGlobal (c : Clock) : Clock :=
+  { c with sims := c.sims.map fun s => { s with next := eventTime c, step := c.step } }
+
+/-- `step_forward` without individual clocks: only the clock moves (move-to-end requests are ignored by
+the guard of `move_simulants_to_end`, `get_active_simulants` returns its argument). -/
+def stepForwardGlobal (c : Clock) : Clock := refreshGlobal { c with now := c.now + c.step }
+
 /-- labels known to the clock (guard used by the driver) -/
 def knows (c : Clock) (i : Nat) : Bool := c.sims.any (·.id == i)
 
